@@ -4794,12 +4794,9 @@ fn announce_service_on_intf(
 /// - `foo (2).local.` becomes `foo (3).local.`
 /// - `foo (9)` becomes `foo (10)`
 fn name_change(original: &str) -> String {
-    let mut parts: Vec<_> = original.split('.').collect();
-    let Some(first_part) = parts.get_mut(0) else {
-        return format!("{original} (2)");
-    };
+    let (first_part, rest) = split_first_label(original);
 
-    let mut new_name = format!("{first_part} (2)");
+    let mut new_name = label_with_suffix(first_part, " (2)");
 
     // check if there is already has `(<num>)` suffix.
     if let Some(paren_pos) = first_part.rfind(" (") {
@@ -4817,14 +4814,58 @@ fn name_change(original: &str) -> String {
                     .and_then(|number| number.checked_add(1))
                 {
                     let base_name = &first_part[..paren_pos];
-                    new_name = format!("{} ({})", base_name, next)
+                    new_name = label_with_suffix(base_name, &format!(" ({})", next))
                 }
             }
         }
     }
 
-    *first_part = &new_name;
-    parts.join(".")
+    format!("{new_name}{rest}")
+}
+
+/// Splits `name` into its first label and the rest, which starts with the separating dot
+/// if there is one. A dot escaped with a backslash (RFC 6763 section 4.3) is part of the label.
+fn split_first_label(name: &str) -> (&str, &str) {
+    let mut escaped = false;
+    for (i, ch) in name.char_indices() {
+        if escaped {
+            escaped = false;
+        } else if ch == '\\' {
+            escaped = true;
+        } else if ch == '.' {
+            return name.split_at(i);
+        }
+    }
+    (name, "")
+}
+
+/// Returns `base` followed by `suffix`, with `base` cut short if needed for the
+/// label to stay within the 63 bytes a DNS label can have on the wire.
+fn label_with_suffix(base: &str, suffix: &str) -> String {
+    const MAX_LABEL_LEN: usize = 63;
+    let room = MAX_LABEL_LEN.saturating_sub(suffix.len());
+
+    let mut wire_len = 0;
+    let mut end = 0;
+    let mut chars = base.char_indices().peekable();
+    while let Some((_, ch)) = chars.next() {
+        // An escaped character takes a single byte on the wire.
+        let unit_len = match (ch, chars.peek()) {
+            ('\\', Some((_, escaped))) => {
+                let len = escaped.len_utf8();
+                chars.next();
+                len
+            }
+            _ => ch.len_utf8(),
+        };
+        if wire_len + unit_len > room {
+            break;
+        }
+        wire_len += unit_len;
+        end = chars.peek().map_or(base.len(), |(i, _)| *i);
+    }
+
+    format!("{}{}", &base[..end], suffix)
 }
 
 /// Returns a new name based on the `original` to avoid conflicts.
@@ -4835,12 +4876,9 @@ fn name_change(original: &str) -> String {
 /// - `foo-2.local.` becomes `foo-3.local.`
 /// - `foo` becomes `foo-2`
 fn hostname_change(original: &str) -> String {
-    let mut parts: Vec<_> = original.split('.').collect();
-    let Some(first_part) = parts.get_mut(0) else {
-        return format!("{original}-2");
-    };
+    let (first_part, rest) = split_first_label(original);
 
-    let mut new_name = format!("{first_part}-2");
+    let mut new_name = label_with_suffix(first_part, "-2");
 
     // check if there is already a `-<num>` suffix
     if let Some(hyphen_pos) = first_part.rfind('-') {
@@ -4852,12 +4890,11 @@ fn hostname_change(original: &str) -> String {
             .and_then(|number| number.checked_add(1))
         {
             let base_name = &first_part[..hyphen_pos];
-            new_name = format!("{}-{}", base_name, next);
+            new_name = label_with_suffix(base_name, &format!("-{}", next));
         }
     }
 
-    *first_part = &new_name;
-    parts.join(".")
+    format!("{new_name}{rest}")
 }
 
 /// Check probes in a registry and returns: a probing packet to send out, and a list of probe names
